@@ -52,6 +52,14 @@ Proof.
   - revert SC. apply forallb_impl. apply seqchar_plain.
 Qed.
 
+Lemma field_name_string f : field_name_ok f = true -> string_ok f = true.
+Proof.
+  unfold field_name_ok, string_ok. destruct f as [|x f]; [discriminate|]. apply forallb_impl. intros c H.
+  assert (K : negb ((32 <? byte_of c)%N && (byte_of c <? 127)%N && negb (Ascii.eqb c colon) && negb (Ascii.eqb c dq) && negb (Ascii.eqb c backslash)) || qchar_ok c = true).
+  { clear H. revert c. ascii_sweep (fun c => negb ((32 <? byte_of c)%N && (byte_of c <? 127)%N && negb (Ascii.eqb c colon) && negb (Ascii.eqb c dq) && negb (Ascii.eqb c backslash)) || qchar_ok c). }
+  rewrite H in K. exact K.
+Qed.
+
 Lemma simple_toks_ok k mb : atomic k -> wf_key k = true -> simple_class k mb = None -> forallb tok_ok (key_tokens k) = true.
 Proof.
   intros Hat W C. destruct k; try contradiction; cbn [simple_class] in C; try discriminate; cbn [key_tokens wf_key] in *.
@@ -64,7 +72,7 @@ Proof.
   - unfold set_ok in W. cbn [forallb]. now rewrite (set_tok s W).
   - unfold set_ok in W. cbn [forallb]. now rewrite (set_tok s W).
   - cbn [forallb]. rewrite (quote_tok v W). destruct h; reflexivity.
-  - apply andb_true_iff in W as [W1 W2]. cbn [forallb]. now rewrite (quote_tok f W1), (quote_tok v W2).
+  - apply andb_true_iff in W as [W1 W2]. cbn [forallb]. now rewrite (quote_tok f (field_name_string f W1)), (quote_tok v W2).
   - cbn [forallb]. now rewrite (quote_tok v W).
   - cbn [forallb]. now rewrite (quote_tok v W).
   - destruct (numeral_digits n W) as [Hd Hne]. cbn [forallb]. now rewrite (plain_tok n Hne (digits_plain n Hd)).
